@@ -77,6 +77,13 @@ def check_case(m, T, xs, basis, P1, P2, mode, Tp, pp, units):
         c3 = DiffusionCurve(mixture=m, membrane_name='o', feed_temperature=T, feed_compositions=comps, partial_fluxes=c2.partial_fluxes)
         for i, p in enumerate(c3.permeances):
             res.append(('reinversion', rel_close(p[0].value, P1, 1e-9) and rel_close(p[1].value, P2, 1e-9), 'point %d re-inverted to %r' % (i, (p[0].value, p[1].value))))
+        # both fluxes and permeances supplied (the way a stored curve is rebuilt): still exposed in kg/(m2 h kPa)
+        c4 = DiffusionCurve(mixture=m, membrane_name='o', feed_temperature=T, feed_compositions=comps, permeances=up,
+                            partial_fluxes=c2.partial_fluxes)
+        for i, p in enumerate(c4.permeances):
+            ok = p[0].units == KG and p[1].units == KG and rel_close(p[0].value, P1, 1e-9) and rel_close(p[1].value, P2, 1e-9)
+            res.append(('both_given', ok, 'point %d of a curve given fluxes and permeances in %s: exposed %r %s / %r %s, expected (%r,%r) kg/(m2*h*kPa)' % (
+                i, units, p[0].value, p[0].units, p[1].value, p[1].units, P1, P2)))
     except (ValueError, ZeroDivisionError, OverflowError) as e:
         res.append(('from_permeances', False, 'raised %s' % e))
     return res
